@@ -263,5 +263,42 @@ mod __verif_c41 {
         std::mem::forget(got);
     }
 
+    fn bad_size_line_case(shape: u8) {
+        let x: u8 = kani::any();
+        let mut buf = [0u8; W];
+        let mut n = 0usize;
+        // a well-formed first chunk, then a size line that is not a chunk size
+        put(&mut buf, &mut n, b"1\r\na\r\n");
+        match shape {
+            0 => {}                                   // empty line
+            1 => {
+                // one byte that is neither a hex digit nor blank
+                kani::assume(!x.is_ascii_hexdigit() && x != b' ' && x != b'\t' && x != b'\r' && x != b'\n' && x < 0x80 && x != 0x0b && x != 0x0c);
+                put(&mut buf, &mut n, &[x]);
+            }
+            2 => put(&mut buf, &mut n, b";x"),        // an extension with no size in front of it
+            _ => put(&mut buf, &mut n, b" "),         // blanks only
+        }
+        put(&mut buf, &mut n, b"\r\n");
+        let got = dechunk(&buf[..n]);
+        kani::cover!(got.is_none());
+        assert!(got.is_none(), "C41.malformed_size_line_rejected");
+        std::mem::forget(got);
+    }
+
+    // @harness tiers=quick,thorough
+    // @encodes metastore::gravitino::dechunk
+    // @bounds after one well-formed chunk, a size line that is empty, blank, a bare extension `;x`, or one symbolic non-hex ASCII byte (four shapes iterated concretely), then end of input
+    // @oracle a frame whose size line carries no hexadecimal size is malformed: rejected, never treated as the terminating chunk
+    // @unwindset try_fold::#0:4 validations::run_utf8_validation#2:4 memcmp#0:4 __verif_c41::put#0:8
+    #[kani::proof]
+    #[kani::unwind(2)]
+    fn malformed_size_line_is_rejected() {
+        bad_size_line_case(0);
+        bad_size_line_case(1);
+        bad_size_line_case(2);
+        bad_size_line_case(3);
+    }
+
     // @playback
 }
